@@ -52,3 +52,16 @@ CLAIMED["C06"] = {
             "network-duplicated Announce (same sequenceId) counts as two.",
     "technique": "Lean 4 theorems (invariants by induction over op histories) + translated constants + differential correspondence",
 }
+
+CLAIMED["C07"] = {
+    "text": "Proof. Lean theorems: for every port state, instance state, receive time and every frame in the property's classes "
+            "(IgnoredFrame), handle_general_receive / handle_event_receive return the unchanged port and instance state and no action, "
+            "timer, forwarded TLV, measurement or clock call, and cannot panic (ignored_noop); lifted to all host histories with "
+            "insertions at arbitrary positions, ignoredness judged in the state reached (noninterference: equal observation trace and "
+            "final state). Tie: the c07 stream runs each generated history with and without ~12k inserted frames per quick run on the "
+            "real ports (two-run oracle) and compares the model on every inserted op.",
+    "note": "Trusted: Lean kernel; hand-written Port model (tied by all instance streams); generators. Hypothesis of ignored_noop for "
+            "unacceptable Announces: the frame is not from the currently selected parent — true in reachable states because a parent "
+            "passed the acceptable-master check when selected (validated by the streams, not yet a theorem).",
+    "technique": "Lean 4 theorems (case analysis per handler, induction over insertion derivations) + two-run differential oracle",
+}
